@@ -7,14 +7,15 @@ import TsRsVerif.Lemmas.UnfoldCheck
 # C02 — every inhabitant of the generated TypeScript type deserializes
 
 `Model/De.lean` is an acceptance model of serde's `Deserialize` (validated against the real `serde_json::from_str` on every
-candidate of every run). `C02_members_are_accepted` proves the property for the tagged fragment, generic items and their
+candidate of every run). `C02_members_are_accepted` proves the property for every enum representation — externally, internally,
+adjacently tagged, `untagged` enums and single `untagged` variants (serde tries them in turn: the rank is the minimum) —, generic items and their
 instantiations included (`Lemmas/DeInst.lean`: reading a value as `Name<A, B>` is reading it as the instance of the item, whose
 body is the generic body with the argument names substituted, and which is again in the fragment): a JSON value with
 distinct keys that inhabits the generated type is never rejected for its shape — the model accepts it, or rejects it only
 because of a LEAF (a number outside the Rust leaf type's range, a string that is not one character for `char`), which is what
 the statement's parenthesis excludes. The proof is a structural recursion on the membership derivation over every library type,
 struct shape and enum representation of the fragment (`Lemmas/DeComplete*.lean`). `C02_real_members_are_accepted` transports it
-to declarations with `#[ts(inline)]` through the unfolding theorem. Outside the fragment (`untagged`, `flatten`) the check still feeds witnesses to the real Deserialize; `C02_kept_candidates_are_members` makes a rejection there a
+to declarations with `#[ts(inline)]` through the unfolding theorem. Outside the fragment (`flatten`) the check still feeds witnesses to the real Deserialize; `C02_kept_candidates_are_members` makes a rejection there a
 genuine counter-example.
 -/
 namespace TsRs
@@ -49,7 +50,7 @@ example : JVal.beqList (witnesses [] 24 10 (.union [.obj [({ name := "t".toList 
        .obj [("t".toList, .str "B".toList)]] = true := by decide +kernel
 
 open Tree De in
-/-- **every inhabitant is accepted (up to leaves)**: in a program of the fragment (`deFragB`: `Tree.fragB`, no `untagged`, distinct variant keys, field types the acceptance model reads), for every type expression `t` over its
+/-- **every inhabitant is accepted (up to leaves)**: in a program of the fragment (`deFragB`: `Tree.fragB`, distinct variant keys, field types the acceptance model reads), for every type expression `t` over its
 items and every JSON value `j` with distinct keys that inhabits the tree-level TypeScript type of `t`: for all sufficient fuel the
 acceptance model of serde's Deserialize gives rank 0 (accepted) or 1 (rejected for a number out of the leaf's range or a
 non-one-character `char` only) — never a missing property, an unknown tag, a wrong arm, a wrong tuple length or a wrong kind of value. -/
@@ -84,6 +85,13 @@ def exDeEnv : Env := [
       { name := "N".toList, shape := .unit, fields := [] },
       { name := "S".toList, shape := .tuple, fields := [{ name := none, ty := .param "T".toList }] },
       { name := "L".toList, shape := .named, fields := [{ name := some "l".toList, ty := .vec (.param "T".toList) }] }] },
+  -- an enum with one `untagged` variant next to tagged ones, and an `untagged` enum
+  { isEnum := true, name := "M".toList, variants := [
+      { name := "T".toList, shape := .tuple, fields := [{ name := none, ty := .prim "u8" }] },
+      { name := "Raw".toList, shape := .named, fields := [{ name := some "raw".toList, ty := .prim "String" }], attr := { untagged := true } }] },
+  { isEnum := true, name := "X".toList, attr := { untagged := true }, variants := [
+      { name := "A".toList, shape := .tuple, fields := [{ name := none, ty := .named "P".toList [] }] },
+      { name := "B".toList, shape := .unit, fields := [] }] },
   { isEnum := false, name := "U".toList, fields := [
       { name := some "a".toList, ty := .named "G".toList [.prim "bool"] },
       { name := some "b".toList, ty := .named "G".toList [.named "G".toList [.named "P".toList []]] }] }]
@@ -99,6 +107,11 @@ def exDeJ2 : JVal := .obj [("a".toList, .obj [("S".toList, .bool true)]),
 example : wfJ exDeJ2 = true ∧ tyOk exDeCfg.limit (.named "U".toList []) = true := by decide +kernel
 #guard memberb (Tree.declsOf exDeCfg exDeEnv) 30 (.ref "U".toList []) exDeJ2
 #guard De.accTy exDeCfg exDeEnv 30 (.named "U".toList []) exDeJ2 == 0
+#guard De.accTy exDeCfg exDeEnv 30 (.named "M".toList []) (.obj [("raw".toList, .str "x".toList)]) == 0
+#guard memberb (Tree.declsOf exDeCfg exDeEnv) 30 (.ref "M".toList []) (.obj [("raw".toList, .str "x".toList)])
+#guard De.accTy exDeCfg exDeEnv 30 (.named "X".toList []) .null == 0
+#guard De.accTy exDeCfg exDeEnv 30 (.named "X".toList []) (.obj [("x".toList, .int 1), ("m".toList, .obj [])]) == 0
+#guard De.accTy exDeCfg exDeEnv 30 (.named "X".toList []) (.obj [("y".toList, .int 1)]) == 3
 -- the instance decides: `G<bool>` does not read a number
 #guard De.accTy exDeCfg exDeEnv 30 (.named "G".toList [.prim "bool"]) (.obj [("S".toList, .int 1)]) == 3
 -- a wrong tag, a missing required property: rejected for their shape; `x: 300` only for the leaf
